@@ -142,6 +142,75 @@ mod driver {
         })
     }
 
+    /// C05: one DhtCoreEngine::handle_request call on a store holding the probed entries
+    pub fn dispatch(case: &Value) -> Value {
+        let rt = tokio::runtime::Builder::new_current_thread().enable_all().build().unwrap();
+        rt.block_on(async {
+            let engine = DhtCoreEngine::new_with_validation_mode(NodeId::from_bytes([0u8; 32]), CloseGroupEnforcementMode::LogOnly).unwrap();
+            // 64 known peers (8 in each of the 8 farthest buckets): the length of a lookup reply then shows how many were asked for
+            {
+                let mut rt = KademliaRoutingTable::new(NodeId::from_bytes([0u8; 32]), 8);
+                let mut tag = 0u64;
+                for j in 0..8usize {
+                    for s in 0..8u8 {
+                        let mut raw = [0u8; 32];
+                        raw[31] = s;
+                        raw[1] = s.wrapping_mul(37);
+                        rt.buckets[j].nodes.push(mk(id_in_bucket(raw, j), tag));
+                        tag += 1;
+                    }
+                }
+                *engine.routing_table.write().await = rt;
+            }
+            let key = DhtKey::from_bytes(raw32(case, "key"));
+            let other = DhtKey::from_bytes(raw32(case, "other"));
+            // a blob (id, len) is materialised as `len` bytes whose first 8 bytes are the id
+            fn blob(id: u64, len: u64) -> Vec<u8> {
+                let mut v = vec![0xabu8; len as usize];
+                for (i, b) in id.to_be_bytes().iter().enumerate() {
+                    if i < v.len() {
+                        v[i] = *b;
+                    }
+                }
+                v
+            }
+            fn unblob(v: &Vec<u8>) -> Value {
+                let mut idb = [0u8; 8];
+                for i in 0..8.min(v.len()) {
+                    idb[i] = v[i];
+                }
+                json!({"id": u64::from_be_bytes(idb), "len": v.len() as u64})
+            }
+            {
+                let mut ds = engine.data_store.write().await;
+                for (label, k) in [("other", &other), ("cand", &key)] {
+                    if case.get(&format!("D.data@{label}.present")).and_then(|v| v.as_bool()).unwrap_or(false) {
+                        ds.put(k.clone(), blob(u(case, &format!("D.data@{label}.v0")), u(case, &format!("D.data@{label}.v1")).min(1 << 20)));
+                    }
+                }
+            }
+            let msg = match case["__params"]["kind"].as_str().unwrap_or("store") {
+                "store" => DhtMessage::Store { key: key.clone(), value: blob(u(case, "value.id"), u(case, "value.len").min(1 << 20)), ttl: Duration::from_secs(60) },
+                "find_node" => DhtMessage::FindNode { target: key.clone(), count: u(case, "count") as usize },
+                _ => DhtMessage::FindValue { key: key.clone() },
+            };
+            let resp = engine.handle_request(DhtRequestWrapper { id: "r".into(), message: msg }).await;
+            let (name, nodes) = match &resp.response {
+                DhtResponse::Error { .. } => ("Error", 0),
+                DhtResponse::StoreAck { .. } => ("StoreAck", 0),
+                DhtResponse::FindNodeReply { nodes, .. } => ("FindNodeReply", nodes.len()),
+                DhtResponse::FindValueReply { nodes, .. } => ("FindValueReply", nodes.len()),
+                _ => ("Other", 0),
+            };
+            let ds = engine.data_store.read().await;
+            let mut data = serde_json::Map::new();
+            for (label, k) in [("other", &other), ("cand", &key)] {
+                data.insert(format!("D.data@{label}"), ds.data.get(k).map(unblob).unwrap_or(Value::Null));
+            }
+            json!({"resp": name, "nodes": nodes, "data": data})
+        })
+    }
+
     pub fn mutation(case: &Value) -> Value {
         let mut rt = table(case);
         let x = match case["__params"]["xb"].as_u64() {
@@ -177,6 +246,7 @@ fn verif_replay_entry() {
         "closest" => driver::closest(&case),
         "mutation" => driver::mutation(&case),
         "engine_ops" => driver::engine_ops(&case),
+        "dispatch" => driver::dispatch(&case),
         other => panic!("unknown driver {other}"),
     };
     println!("VERIF-OBS {}", obs);
